@@ -22,9 +22,9 @@ from core import enc_bool, enc_opt, enc_str_list
 PROPERTY = "C10"
 
 # CODE VARIANT FLAGS — the value that matches TODAY's code in /repo (see Model/Live.lean `Cfg`)
-BARE_BYPASS = 1   # 1: console.print()/log() without arguments call Console.line() and bypass the render hooks (F19)
-START_GUARD = 0   # 0: Progress.start() calls refresh() unprotected after installing hook / redirection / hidden cursor
-RESET_SHAPE = 0   # 0: stop() keeps _live_render._shape, so a later start() erases rows of finished output
+BARE_BYPASS = 0   # 1: console.print()/log() without arguments call Console.line() and bypass the render hooks (F19)
+START_GUARD = 1   # 0: Progress.start() calls refresh() unprotected after installing hook / redirection / hidden cursor
+RESET_SHAPE = 1   # 0: stop() keeps _live_render._shape, so a later start() erases rows of finished output
 
 
 # ------------------------------------------------------------------------------------------------
